@@ -1276,3 +1276,88 @@ def r16(R):
                         'of the file',
                         key='iterator not bounded by the storage stop')
     R.require(n >= 1, 'FileStorage.iterator no longer builds a FileIterator')
+
+
+# ------------------------------------------------------------------ C17.R17
+@rule('C17.R17', 'the transaction iterator takes a header cut short by the '
+      'end of the file for the unfinished transaction at the end (as the '
+      'open-time scan does, and as it does itself for data cut short): it '
+      'passes the read error on only for a complete header',
+      props=['C01', 'C09'], min_instances=1)
+def r17(R):
+    cls = R.prog.cls(FITER)
+    f = R.method(cls, '__next__')
+    g, b, F = R.cfg(f, cls, max_depth=0)
+    # the handler of the header read
+    tries = [t for t in walk_local(f.node) if isinstance(t, ast.Try) and any(
+        isinstance(c, ast.Call) and isinstance(c.func, ast.Attribute) and
+        c.func.attr == '_read_txn_header' for s_ in t.body
+        for c in ast.walk(s_))]
+    R.require(tries, 'FileIterator.__next__ no longer guards the header read')
+    n = 0
+    for t in tries:
+        for h in t.handlers:
+            if h.type is None or 'CorruptedDataError' not in ast.unparse(
+                    h.type):
+                continue
+            n += 1
+            R.instance('FileIterator.__next__: except %s' % ast.unparse(
+                h.type))
+            err = h.name
+
+            # walk the handler: a `raise` must be dominated by a test that
+            # the buffer is complete
+            def complete_known(test, truth):
+                for e, tr in implied_atoms(test, 'T' if truth else 'F'):
+                    for l, op, r in cmp_sides(e):
+                        if isinstance(l, ast.Call) and isinstance(
+                                l.func, ast.Name) and l.func.id == 'len' \
+                                and l.args and isinstance(
+                                    l.args[0], ast.Attribute) and \
+                                l.args[0].attr == 'buf' and (
+                                    (isinstance(r, ast.Name) and
+                                     r.id == 'TRANS_HDR_LEN') or
+                                    (isinstance(r, ast.Constant) and
+                                     r.value == 23)):
+                            short = op in (ast.Lt, ast.NotEq, ast.LtE)
+                            if short != tr or (op in (ast.GtE, ast.Eq,
+                                                      ast.Gt) and tr):
+                                return True
+                return False
+
+            def walk(block, known):
+                for i, s_ in enumerate(block):
+                    if isinstance(s_, ast.Raise) and not known:
+                        return s_
+                    if isinstance(s_, ast.If):
+                        kt = known or complete_known(s_.test, True)
+                        kf = known or complete_known(s_.test, False)
+                        r = walk(s_.body, kt)
+                        if r is not None:
+                            return r
+                        r = walk(s_.orelse, kf)
+                        if r is not None:
+                            return r
+                        # a branch that cannot fall through teaches the rest
+                        from ..flow import _cannot_fall_through
+                        if _cannot_fall_through(s_.body):
+                            known = kf
+                        elif s_.orelse and _cannot_fall_through(s_.orelse):
+                            known = kt
+                return None
+
+            bad = walk(h.body, False)
+            if bad is not None:
+                R.violation(
+                    (f.module.relpath, f.qualname,
+                     'header read error passed on', bad.lineno),
+                    'FileIterator.__next__ passes the error of the header '
+                    'read on although the header may merely be cut short by '
+                    'the end of the file: iterating (or copying) a storage '
+                    'whose file ends within the first 23 bytes of an '
+                    'unfinished transaction raises CorruptedDataError, '
+                    'while a longer torn tail just ends the iteration and '
+                    'the open-time scan accepts both',
+                    key='short header at the end of the file not taken for '
+                        'the end')
+    R.require(n >= 1, 'handler of the header read not found')
